@@ -434,7 +434,7 @@ theorem entryRefuses_eq (st : Stored) (mode : Mode) (a : Bool) (keys : List Nat)
   | all => simp
   | frame uid =>
     simp only [framesAdmitted_eq]
-    cases a <;> cases (st.refs.contains uid) <;> cases (keys.any (· == 0)) <;>
+    cases a <;> cases (st.frameSrcs.contains uid) <;> cases (keys.any (· == 0)) <;>
       cases (keys.any fun k => decide (k > listMax (st.frames.map (·.key)))) <;> simp
 
 theorem read_eq_readCore (st : Stored) (mode : Mode) (a : Bool) (rq : Req)
